@@ -154,7 +154,7 @@ PROPS = {
         level_text="Seeded exploration of generated update multisets with generated update->thread assignments applied inside on_each to GAccumulator (+=, -=, update; int/long/unsigned/double), "
                    "GReduceMax/Min (incl. all-negative int/double/float), logical and/or, make_reducible with a user merge and a move-only type, reset; concurrent fills of InsertBag and PerThread "
                    "vector/deque/list/set; DynamicBitSet concurrent set/reset plus range reset at generated alignments, bitwise ops, count, getOffsets; atomicMin/Max/Add/Subtract; concurrent union-find. "
-                   "Oracle: sequential fold / std:: containers / serial union-find. Added later: swap / move construction of filled bags followed by new reducers and loops (the two-bag idiom), vectors of reducers that grow.",
+                   "Oracle: sequential fold / std:: containers / serial union-find. Added later: observation under a changed active-thread count (size_all / empty_all of every per-thread container; do_all over the bag with fewer threads is a recorded known finding), swap / move construction of filled bags followed by new reducers and loops (the two-bag idiom), vectors of reducers that grow.",
         level_note="Sampling over seeds; the value-only parts (identities, masks) ride along on the simulated concurrent runs, the schedule-dependent parts (CAS loops under spurious weak-CAS failure, concurrent merges) are what the simulator adds.",
         **tiers(20000, 120, 500000, 1500)),
     "C16": dict(
@@ -196,7 +196,7 @@ PROPS = {
         design_ref="3.11",
         level_text="Seeded exploration of the parallel graph builders: generated graphs (empty, isolated nodes, self loops, parallel edges, hubs, last node with/without edges) written by the harness's "
                    "own .gr writer (v1/v2, void/uint32/uint64 data) and loaded with 1-16 threads into LC_CSR (3 variants + array constructor), LC_CSR_CSC (constructIncomingEdges), LC_Linear, LC_InlineEdge, "
-                   "LC_Morph, LC_InOut over LC_CSR (two-file form with a harness-written transposed file and one-file symmetric form; in_edges, in-degree, sortAllInEdgesByDst); then findEdge, sortAllEdgesByDst, findEdgeSortedByDst, sortEdgesByEdgeData, transpose, per-thread local ranges. Oracle: exact comparison with the generator's edge list "
+                   "LC_Linear with void data and lockable nodes, LC_Morph, LC_InOut over LC_CSR (two-file form with a harness-written transposed file and one-file symmetric form; in_edges, in-degree, sortAllInEdgesByDst); then findEdge, sortAllEdgesByDst, findEdgeSortedByDst, sortEdgesByEdgeData, transpose, per-thread local ranges. Oracle: exact comparison with the generator's edge list "
                    "(file order for CSR layouts, unique edge ids for layouts with free node order), views are permutations grouped correctly, local ranges partition [0,n). Added later: every mapping the graph code makes is under the happens-before check (unordered conflicting plain accesses, mixed atomic/plain races are reported whatever the result).",
         level_note="Sampling over seeds. Sequential lookups ride along as oracle reads; what the simulator adds are the interleavings of the per-thread construction, the fromFileInterleaved condvar hand-shake and the atomic slot claiming in transpose / in-edge construction.",
         **tiers(12000, 150, 300000, 1800)),
@@ -209,7 +209,7 @@ PROPS = {
         expected_probes=["edges_checked", "edgelist2gr", "gr2cgr", "gr2sorteddstgr"],
         design_ref="3.12",
         level_text="Library half: FileGraphWriter + toFile under injected short writes must produce bytes identical to the harness's independent encoder; whole reads (fromFile / fromFileInterleaved), "
-                   "partFromFile at generated split points, OfflineGraph (seek + read), BufferedGraph partial loads and OfflineGraphWriter are compared with the generator's edge list through an independent decoder, "
+                   "partFromFile at generated split points, OfflineGraph (seek + read; sequentially and by all active threads at once on one object), BufferedGraph partial loads and OfflineGraphWriter are compared with the generator's edge list through an independent decoder, "
                    "for format versions 1 and 2, edge data widths 0/4/8, odd and even edge counts, under injected short reads. "
                    "Tool half: the real graph-convert (its main() renamed) runs one conversion per simulated run with short reads/writes injected into its file I/O: edgelist2gr, csv2gr, dimacs2gr, mtx2gr "
                    "(generated text with comments, blank lines, CR/LF, surplus columns, id gaps and shifts, shuffled line order, negative int32 weights), gr2edgelist, gr2edgelist1ind, gr2dimacs, gr2mtx, gr2adjacencylist "
